@@ -127,7 +127,7 @@ open Qryn Qryn.Sql
 /-! ### `planMetric` as the composition of its phases -/
 /-- `matrixFunctionsLabelsIDX != -1`, with the outcome of `AnalyzeMetrics15sShortcut` as a parameter -/
 def matrixLabelsW (short : Bool) (q : MetricQuery) : Bool :=
-  (q.rangeAgg.isUnwrap && !short) || (match q.agg? with | some a => a.grouped | none => false)
+  (q.rangeAgg.isUnwrap && !short) || q.agg?.isSome
 
 /-- the planner state after the steps of the range node (range function, optional comparison); `short` = the
     metrics_15s shortcut is planned -/
@@ -139,7 +139,7 @@ def aggPhase (short : Bool) (c : MCtx) (q : MetricQuery) (s : PState) : Sel :=
   match q.agg? with
   | none => s.sel
   | some a => cmpOpt a.cmp (aggSel a.fn (matrixLabelsW short q)
-      (planByWithout c.toCtx (!q.rangeAgg.isUnwrap) (chosenGrouping a.byPrefix a.bySuffix) s).sel)
+      (planByWithout c.toCtx (!q.rangeAgg.isUnwrap) (some (aggGrouping a)) s).sel)
 
 def topkPhase (q : MetricQuery) (s : Sel) : Sel :=
   match q with
@@ -213,11 +213,9 @@ theorem grouped_of_chosen (a : VecAgg) (g : Grouping) (hg : chosenGrouping a.byP
   | some x => simp
   | none => rw [hb] at hg; simp only at hg; rw [hg]; simp
 
-/-- the supported shapes above the range node: a vector aggregation has a grouping clause and a modelled operator -/
-def aggOk (q : MetricQuery) : Prop :=
-  match q.agg? with
-  | none => True
-  | some a => (chosenGrouping a.byPrefix a.bySuffix).isSome = true
+/-- (kept for the statements that name it) every vector aggregation is covered: without a grouping clause `planAgg` plans
+    the grouping of the empty label list (the `fix:` of C08/agg-without-grouping-keeps-streams) -/
+def aggOk (_q : MetricQuery) : Prop := True
 
 /-- points of the direct reading above the range stage (before step re-bucketing) -/
 def upperPts (o : Oracles) (c : MCtx) (d : LokiDb) (q : MetricQuery) (p0 : List Pt) : List Pt :=
@@ -312,11 +310,8 @@ theorem planPhases_of_range (short : Bool) (o : Oracles) (c : MCtx) (hn : c.name
       rfl
     | agg a => simp [MetricQuery.agg?] at hagg
   | some a =>
-    have hok' : (chosenGrouping a.byPrefix a.bySuffix).isSome = true := by
-      unfold aggOk at hok; rw [hagg] at hok; exact hok
-    obtain ⟨g, hg⟩ := Option.isSome_iff_exists.mp hok'
-    have hgr : a.grouped = true := grouped_of_chosen a g hg
-    have hml : matrixLabelsW short q = true := by unfold matrixLabelsW; simp [hagg, hgr]
+    obtain ⟨g, hg⟩ : ∃ g, aggGrouping a = g := ⟨_, rfl⟩
+    have hml : matrixLabelsW short q = true := by unfold matrixLabelsW; simp [hagg]
     have hA : aggPhase short c q (rangeState short c q) =
         cmpOpt a.cmp (aggSel a.fn true (byWithoutTS c.toCtx (labelConds q.rangeAgg.sel).length g (rangeState short c q).sel)) := by
       unfold aggPhase
@@ -325,7 +320,7 @@ theorem planPhases_of_range (short : Bool) (o : Oracles) (c : MCtx) (hn : c.name
     have hU1 : (match q.agg? with
         | some a => cmpStage a.cmp (aggStage o c.toCtx d q.rangeAgg.sel a p0)
         | none => p0) = cmpStage a.cmp (aggCore o a.fn (p0.map (regroupPt o c.toCtx d q.rangeAgg.sel g))) := by
-      rw [hagg]; simp only [aggStage_eq, hg, Option.getD_some]
+      rw [hagg]; simp only [aggStage_eq]; rw [← hg]; rfl
     rw [hA]
     unfold joinPhase upperPts
     rw [hml, hU1]
